@@ -357,7 +357,8 @@ def gen_cases(ctx):
                         wis=sorted(set(rng.randint(0, 2) for _ in range(rng.choice([1, 1, 2])))),
                         seed=rng.randint(0, 10 ** 6))
         elif kind == 'opd':
-            case.update(fields=field_list()[:1], wis=[rng.randint(0, 2)], num_rays=rng.randint(1, 6 if quick else 15))
+            case.update(fields=field_list()[:1], wis=[rng.randint(0, 2)], num_rays=rng.randint(1, 6 if quick else 15),
+                        view_first=rng.random() < 0.5, projection=rng.choice(['2d', '2d', '3d']))
         elif kind == 'fan':
             case.update(fields=field_list(), wis=sorted(set([rng.randint(0, 2), rng.randint(0, 2)])),
                         num_rays=rng.randint(2, 24))
@@ -388,15 +389,22 @@ def gen_cases(ctx):
         d = lensgen.gen_lens(rng, finite_object=finite, allow_asphere=kind < 0.25,
                              field_types=('object_height',) if finite else ('angle',),
                              nsurf=rng.randint(1, 10), catalog=rng.random() < 0.1,
-                             stop=rng.choice(['first', 'interior', 'last', 'any']))
+                             stop=rng.choice(['first', 'interior', 'last', 'any']),
+                             apertures=rng.random() < 0.15, absorbing=rng.random() < 0.1)
+
+        def medium(lo, hi):
+            # a constant index, or a dispersive catalogue glass (the index then depends on the analysed wavelength)
+            if rng.random() < 0.5:
+                return {'kind': 'catalog', 'name': rng.choice(['N-BK7', 'SF11', 'N-SK16', 'F2', 'N-LAK12'])}
+            return {'kind': 'ideal', 'n': lensgen.dyadic(rng, lo, hi, 6)}
         u = rng.random()
-        if u < 0.04:      # immersed image (the medium behind the image surface is not air): finding F-C09-1
-            d['surfaces'][-2]['material'] = {'kind': 'ideal', 'n': lensgen.dyadic(rng, 1.3, 1.8, 6)}
+        if u < 0.07:      # immersed image (the medium behind the image surface is not air): finding F-C09-1
+            d['surfaces'][-2]['material'] = medium(1.3, 1.8)
             d['surfaces'][-1]['material'] = dict(d['surfaces'][-2]['material'])
-        elif u < 0.08:    # image plane is a glass/air interface (cover glass, as in the bundled UV microscope)
-            d['surfaces'][-2]['material'] = {'kind': 'ideal', 'n': lensgen.dyadic(rng, 1.3, 1.8, 6)}
-        elif u < 0.11 and not finite:    # object space not air: finding F-C09-2
-            d['surfaces'][0]['material'] = {'kind': 'ideal', 'n': lensgen.dyadic(rng, 1.2, 1.6, 6)}
+        elif u < 0.11:    # image plane is a glass/air interface (cover glass, as in the bundled UV microscope)
+            d['surfaces'][-2]['material'] = medium(1.3, 1.8)
+        elif u < 0.17 and not finite:    # object space not air: finding F-C09-2
+            d['surfaces'][0]['material'] = medium(1.2, 1.6)
         case = {'desc': d, 'kind': rng.choice(kinds), 'image_solve': rng.random() < 0.6}
         out.append(generic(case))
     return out
@@ -443,6 +451,14 @@ def run_impl(ctx, case):
     elif kind == 'opd':
         f = tuple(case['fields'][0])
         wf = OPD(optic, f, wls[0], num_rings=case['num_rays'])
+        if case.get('view_first'):
+            # the map is drawn before the numbers are read: drawing must not change the stored samples
+            import matplotlib.pyplot as plt
+            try:
+                wf.view(projection=case.get('projection', '2d'), num_points=16)
+            except Exception as e:  # noqa
+                job.obs['view_error'] = type(e).__name__
+            plt.close('all')
         job.obs['rms'] = float(wf.rms())
     elif kind == 'fan':
         wf = OPDFan(optic, fields=[tuple(f) for f in case['fields']], wavelengths=wls, num_rays=case['num_rays'])
